@@ -26,6 +26,33 @@ type Op struct {
 	Ps  []int   `json:"ps,omitempty"`
 	T   string  `json:"t,omitempty"`
 	Sgr [][]int `json:"sgr,omitempty"`
+	// Raw[i], when not empty, is the decimal digit string written on the wire
+	// for parameter i (numbers that do not fit an int, or that TLC's 32-bit
+	// integers cannot hold); Ps[i] is then Huge, the value the trace carries.
+	Raw []string `json:"raw,omitempty"`
+}
+
+// Huge stands in the trace for every parameter value from 10^6 on: the
+// oracle compares parameters only with screen sizes (at most a few dozen),
+// so all such values have the same prescribed effect (MC_VTRef ThmHuge).
+const Huge = 1 << 30
+
+// H is a counted / positional operation whose parameters are given as digit
+// strings ("" = omitted); values of 10^6 and more are logged as Huge.
+func H(op string, digits ...string) Op {
+	o := Op{Op: op, Ps: make([]int, len(digits)), Raw: make([]string, len(digits))}
+	for i, d := range digits {
+		switch {
+		case d == "":
+			o.Ps[i] = -1
+		case len(strings.TrimLeft(d, "0")) > 6:
+			o.Ps[i], o.Raw[i] = Huge, d
+		default:
+			o.Ps[i], _ = strconv.Atoi(d)
+			o.Raw[i] = d // keeps leading zeros
+		}
+	}
+	return o
 }
 
 type Scn struct {
@@ -50,10 +77,13 @@ var fixedBytes = map[string]string{
 	"SC1048": "\x1b[?1048h", "RC1048": "\x1b[?1048l",
 }
 
-func joinPs(ps []int) string {
+func joinPs(ps []int, raw []string) string {
 	parts := make([]string, len(ps))
 	for i, p := range ps {
-		if p >= 0 {
+		switch {
+		case i < len(raw) && raw[i] != "":
+			parts[i] = raw[i]
+		case p >= 0:
 			parts[i] = strconv.Itoa(p)
 		}
 	}
@@ -63,7 +93,7 @@ func joinPs(ps []int) string {
 // Bytes is what the child writes for the operation.
 func (o Op) Bytes() string {
 	if f, ok := csiFinal[o.Op]; ok {
-		return "\x1b[" + joinPs(o.Ps) + f
+		return "\x1b[" + joinPs(o.Ps, o.Raw) + f
 	}
 	if b, ok := fixedBytes[o.Op]; ok {
 		return b
@@ -88,7 +118,8 @@ func (o Op) Bytes() string {
 }
 
 // cls classifies the numeric parameters relative to the screen size (for
-// the rejection signature): - omitted, 0, 1, m inside, e = size, x beyond.
+// the rejection signature): - omitted, 0, 1, m inside, e = size, x beyond,
+// h huge (a digit string of seven digits or more).
 func (o Op) cls(rows, cols int) string {
 	if _, ok := csiFinal[o.Op]; !ok {
 		return ""
@@ -112,6 +143,8 @@ func (o Op) cls(rows, cols int) string {
 		switch {
 		case p < 0:
 			sb.WriteByte('-')
+		case p >= Huge:
+			sb.WriteByte('h')
 		case p == 0:
 			sb.WriteByte('0')
 		case p == 1:
@@ -220,7 +253,7 @@ func dedupe(ops []Op) []Op {
 // Tiny is the alphabet of the longest (length 3) enumerations: one instance
 // of every function of the vocabulary, plus over-long counts.
 func Tiny(rows, cols int) []Op {
-	return dedupe([]Op{T("x"), T("世"), P("CR"), P("LF"), P("RI"), P("DECSC"), P("DECRC"), P("ALTON"), P("ALTOFF"),
+	return dedupe([]Op{T("x"), T("世"), T("⸻"), P("CR"), P("LF"), P("RI"), P("DECSC"), P("DECRC"), P("ALTON"), P("ALTOFF"),
 		P("ALT47ON"), P("ALT47OFF"),
 		P("CUP"), P("CUP", 2, 2), P("CUU"), P("CUD"), P("CUF"), P("CUB"), P("ED"), P("ED", 1), P("ED", 2), P("EL"), P("EL", 1),
 		P("ECH", 2), P("ICH"), P("DCH"), P("IL"), P("DL"), P("SU"), P("SD"), P("DECSTBM", 1, 2), P("DECSTBM", 2, rows),
@@ -232,7 +265,7 @@ func Tiny(rows, cols int) []Op {
 // omitted, 0, 1, 2, size-1, size, size+1 (reduced: omitted, 0, 2, size+1).
 func Alphabet(rows, cols int, reduced bool) []Op {
 	var a []Op
-	a = append(a, T("x"), T("世"))
+	a = append(a, T("x"), T("世"), T("⸺"), T("⸻")) // narrow, wide, and measured 3 and 4 columns wide
 	for _, o := range []string{"CR", "LF", "IND", "RI", "NEL", "DECSC", "DECRC", "ALTON", "ALTOFF",
 		"ALT47ON", "ALT47OFF", "ALT1047ON", "ALT1047OFF", "SC1048", "RC1048"} {
 		a = append(a, P(o))
@@ -279,6 +312,33 @@ func Alphabet(rows, cols int, reduced bool) []Op {
 		}
 		a = b
 	}
+	return dedupe(a)
+}
+
+// HugeDigits are parameter values far beyond every screen size, around the
+// places where a parameter accumulated in a 16, 32 or 64 bit integer wraps:
+// 2^16, 2^31, 2^32+1, 2^63-1, 2^63, 2^64-1, 2^64, 2^64+1, 2^64+2, 2^64+3,
+// 2^65+1, 10^20, 10^30.
+var HugeDigits = []string{"65536", "2147483648", "4294967297", "9223372036854775807", "9223372036854775808",
+	"18446744073709551615", "18446744073709551616", "18446744073709551617", "18446744073709551618", "18446744073709551619",
+	"36893488147419103233", "100000000000000000000", "1000000000000000000000000000000"}
+
+// HugeOps is every function of the vocabulary that takes a count, a position
+// or a selection, with each of the huge values in each parameter place.
+func HugeOps() []Op {
+	var a []Op
+	for _, d := range HugeDigits {
+		for _, o := range nOps {
+			a = append(a, H(o, d))
+		}
+		a = append(a, H("ED", d), H("EL", d))
+	}
+	for _, d := range []string{"9223372036854775808", "18446744073709551617", "18446744073709551618", "1000000000000000000000000000000"} {
+		a = append(a, H("CUP", d, d), H("CUP", d), H("CUP", "", d), H("CUP", "1", d), H("CUP", d, "1"), H("HVP", d, d),
+			H("DECSTBM", d), H("DECSTBM", "", d), H("DECSTBM", "1", d), H("DECSTBM", d, d))
+	}
+	// top and bottom that wrap to 1 and 2
+	a = append(a, H("DECSTBM", "18446744073709551617", "18446744073709551618"), H("CUP", "18446744073709551618", "18446744073709551617"))
 	return dedupe(a)
 }
 
@@ -346,6 +406,10 @@ func Exhaustive(rows, cols int, pname string, pre []Op, alpha []Op, length int, 
 
 var narrow = []string{"a", "b", "c", "x", "y", "z", "é", "é", "~", "#", " "}
 var wide = []string{"世", "界", "😀", "語"}
+
+// odd are printable characters that uniseg measures 3 and 4 columns wide
+// (U+2E3A TWO-EM DASH, U+2E3B THREE-EM DASH).
+var odd = []string{"⸺", "⸻"}
 
 func randParam(rng *rand.Rand, size int) []int {
 	switch rng.Intn(10) {
@@ -429,11 +493,16 @@ func GenRandom(rng *rand.Rand, maxCols, maxRows, minLen, maxLen int) *Scn {
 	n := minLen + rng.Intn(maxLen-minLen+1)
 	sc := &Scn{Kind: "random", Cols: cols, Rows: rows}
 	wideBias := rng.Intn(4) == 0
+	// one scenario in five also prints the odd-width characters and one in five uses
+	// huge parameters (not all: a rejection ends the judgement of its scenario)
+	oddToo, hugeToo := rng.Intn(5) == 0, rng.Intn(5) == 0
 	for len(sc.Ops) < n {
 		switch x := rng.Intn(100); {
 		case x < 38:
 			for k := 1 + rng.Intn(cols+2); k > 0; k-- {
-				if rng.Intn(6) == 0 || (wideBias && rng.Intn(2) == 0) {
+				if oddToo && rng.Intn(10) == 0 {
+					sc.Ops = append(sc.Ops, T(odd[rng.Intn(len(odd))]))
+				} else if rng.Intn(6) == 0 || (wideBias && rng.Intn(2) == 0) {
 					sc.Ops = append(sc.Ops, T(wide[rng.Intn(len(wide))]))
 				} else {
 					sc.Ops = append(sc.Ops, T(narrow[rng.Intn(len(narrow))]))
@@ -459,12 +528,21 @@ func GenRandom(rng *rand.Rand, maxCols, maxRows, minLen, maxLen int) *Scn {
 			default:
 				ps = []int{1 + rng.Intn(rows), 1 + rng.Intn(cols)}
 			}
+			if hugeToo && rng.Intn(6) == 0 {
+				d := []string{"", "1", HugeDigits[rng.Intn(len(HugeDigits))], HugeDigits[rng.Intn(len(HugeDigits))]}
+				sc.Ops = append(sc.Ops, H([]string{"CUP", "HVP", "DECSTBM"}[rng.Intn(3)], d[rng.Intn(4)], d[rng.Intn(4)]))
+				continue
+			}
 			sc.Ops = append(sc.Ops, Op{Op: []string{"CUP", "CUP", "CUP", "HVP"}[rng.Intn(4)], Ps: ps})
 		case x < 72:
 			o := nOps[rng.Intn(len(nOps))]
 			size := cols
 			if vertical(o) {
 				size = rows
+			}
+			if hugeToo && rng.Intn(4) == 0 {
+				sc.Ops = append(sc.Ops, H(o, HugeDigits[rng.Intn(len(HugeDigits))]))
+				continue
 			}
 			sc.Ops = append(sc.Ops, Op{Op: o, Ps: randParam(rng, size)})
 		case x < 78:
@@ -533,6 +611,22 @@ func Fixed() []*Scn {
 		f("decrc-none", 3, 2, T("ab"), S([]int{1}), P("DECRC")),
 		f("sd-zero", 3, 3, T("abcdefghi"), P("SD", 0), P("SU", 0)),
 		f("nel-bottom", 3, 2, T("abc"), P("CUP", 2, 2), P("NEL"), P("CNL", 1), P("CPL", 5)),
+		// characters measured wider than two columns: a cell is narrow or wide, never wider
+		f("odd-2x2", 2, 2, T("⸻")),
+		f("odd-2x2-more", 2, 2, T("⸺"), T("⸻"), T("x")),
+		f("odd-then-x", 8, 2, T("⸻x"), P("CR"), P("LF"), T("⸺x")),
+		f("odd-over", 8, 2, T("⸻"), P("CUP", 1, 3), T("x"), P("CUP", 1, 2), T("y"), P("CUP", 1, 1), T("z")),
+		f("odd-edge", 4, 2, T("abc"), T("⸻"), T("d")),
+		f("odd-erase", 6, 2, T("a⸻b⸺"), P("CUP", 1, 2), P("ECH", 1), P("CUP", 1, 4), P("DCH", 1), P("CUP", 1, 1), P("ICH", 2), P("EL", 1)),
+		f("odd-wrap", 3, 3, T("ab⸻⸺c⸻")),
+		// parameters of 20 digits and more (2^64+1, 2^64+3, 2^64+2, 2^64, 10^30): beyond the screen like any other large value
+		f("huge-moves", 10, 5, T("abcdefghij"), P("CUP"), H("CUD", "18446744073709551617"), H("CUF", "18446744073709551617"), P("CUP"),
+			H("CUP", "18446744073709551617", "18446744073709551617"), P("CUP"), H("VPA", "18446744073709551619"),
+			H("CHA", "18446744073709551618"), H("CUU", "18446744073709551616"), H("CUB", "1000000000000000000000000000000")),
+		f("huge-erase", 10, 5, T("abcdefghijABCDEFGHIJ"), P("CUP"), H("ECH", "18446744073709551617"), P("CUP", 2, 3), H("ED", "18446744073709551618"),
+			H("EL", "18446744073709551617"), H("DCH", "18446744073709551617"), P("CUP", 1, 2), H("ICH", "18446744073709551618")),
+		f("huge-lines", 4, 5, T("aaaabbbbccccddddeeee"), P("CUP", 2, 1), H("IL", "18446744073709551617"), T("x"), H("SU", "18446744073709551617"),
+			T("y"), H("DECSTBM", "18446744073709551617", "18446744073709551619"), T("z"), H("SD", "18446744073709551616"), H("DL", "18446744073709551617")),
 	}
 }
 
